@@ -303,10 +303,17 @@ def _cond(rng, n_out, float_outcomes=False):
     return {"when_call": str(rng.choice(["last_pos", "first_zero", "sum_even", "always", "never"]))}
 
 
-def _param_expr(rng, n_out, float_outcomes=False):
-    """An outcome-dependent parameter (string expression or named callable) of float value."""
+def _param_expr(rng, n_out, float_outcomes=False, bounded=False):
+    """An outcome-dependent parameter (string expression or named callable) of float value.
+    bounded: the parameter is not periodic (a shear / squeezing strength) and the outcome is a
+    real number that may be noise dominated (the unmeasured quadrature of a homodyne outcome is
+    ~1e3..1e4): the expression maps it into [-0.35, 0.45] so that the workload stays in the regime
+    a float64 simulation resolves (DESIGN 7.4, C08 false alarm)."""
     i = int(rng.integers(-n_out, n_out))
     k = rng.random()
+    if float_outcomes and bounded:
+        return str(rng.choice(["(x[%d] > 0.0) * 0.6 - 0.25", "0.9 * x[%d] / (1.0 + x[%d] * x[%d])",
+                               "0.3 - 0.5 * (x[%d] < 0.2)"])).replace("%d", str(i))
     if float_outcomes:
         return str(rng.choice(["x[%d] * 0.5", "0.3 - x[%d]", "x[%d] / 4"])) .replace("%d", str(i))
     if k < 0.3:
@@ -390,7 +397,7 @@ def adaptive_program(rng, sim="purefock", d=None, max_meas=2, allow_active=True,
                 if r > 0.3 and name in ("Phaseshifter", "Kerr", "CrossKerr", "Squeezing", "Displacement", "QuadraticPhase", "Beamsplitter", "MachZehnder"):
                     key = {"Phaseshifter": "phi", "Kerr": "xi", "CrossKerr": "xi", "Squeezing": "phi",
                            "Displacement": "phi", "QuadraticPhase": "s", "Beamsplitter": "phi", "MachZehnder": "ext"}[name]
-                    g["p"][key] = _param_expr(rng, n_out, float_out)
+                    g["p"][key] = _param_expr(rng, n_out, float_out, bounded=key == "s")
                     # sometimes a second outcome-dependent parameter on the same instruction
                     second = {"Squeezing": "r", "Displacement": "r", "Beamsplitter": "theta", "MachZehnder": "int_"}.get(name)
                     if second is not None and rng.random() < 0.4:
